@@ -283,7 +283,7 @@ func GuardT(timeout time.Duration, f func() error) (err error) {
 		}()
 		done <- f()
 	}()
-	for period := 0; period < 4; period++ {
+	for period := 0; period < 3; period++ {
 		select {
 		case e := <-done:
 			return e
